@@ -280,6 +280,9 @@ class AbstractDateTime(AnyAtomicType):
             raise TypeError("wrong type %r for operand %r" % (type(other), other))
 
         if self._year != year and not (1 <= self._year <= 9999 and 1 <= year <= 9999):
+            if isinstance(other, AbstractDateTime):
+                # the instants on the timeline: the timezones may reverse the order of the years
+                return op(self.todelta(), other.todelta())
             return op(self._year, year)
         elif self._dt.tzinfo is dt.tzinfo:
             return op(self._dt, dt)
